@@ -28,7 +28,38 @@ def row? : SX → Option (Ref × List Ref)
 
 def encRef (r : Ref) : String := "(" ++ toString r.doc ++ " " ++ encodeStr r.ptr ++ ")"
 
+def cop? : SX → Option COp
+  | .list [.atom "enter", .atom "-"] => some (.enter none)
+  | .list [.atom "enter", p] => do
+    let p ← p.str?
+    pure (.enter (some p))
+  | .list [.atom "exit"] => some .exit
+  | .list [.atom "resolve", r] => do
+    let r ← r.str?
+    pure (.resolve r)
+  | _ => none
+
+def encCur : Option Dir → String
+  | none => "-"
+  | some d => encodeStr (joinSegs d)
+
+def encCRes : CRes → String
+  | .ok p => encodeStr p
+  | .outside => "outside"
+  | .unmodelled => "unmodelled"
+  | .raised => "raised"
+
+/-- `res.ctx ((enter p|-) (exit) (resolve r)…)` → `ok ((cur answer)…)`: current directory and answer after every operation -/
+def ctxHandler : Handler := fun
+  | [.list ops] =>
+    match ops.mapM cop? with
+    | some ops =>
+      "ok (" ++ " ".intercalate ((ctrace CState.init ops).map (fun e => "(" ++ encCur e.1.cur ++ " " ++ encCRes e.2 ++ ")")) ++ ")"
+    | none => "err args"
+  | _ => "err args"
+
 def handlers : List (String × Handler) := [
+  ("res.ctx", ctxHandler),
   ("res.multidoc", fun
     | [n, .list rows, ld, rs, raw] =>
       match n.nat?, rows.mapM row?, refs? ld, refs? rs, raw.nat? with
